@@ -73,7 +73,8 @@ func rawRequest(w *World, op Op) {
 	if op.S == "reserved" && w.k.Store == "dir" {
 		// the directory store cannot hold repositories named like layout entries
 		if r.Code != 400 || (rq.Method == "GET" && !hasCode(w.errCodes(r), "NAME_INVALID")) {
-			w.x.viol([]string{"C15", "C16"}, "req.error-code", "reserved name: not 400 NAME_INVALID", fmt.Sprintf("%s %s answered %d %v", rq.Method, rq.Path, r.Code, w.errCodes(r)))
+			// (C10 too: a repository inside blobs/ of another one makes that one an invalid layout)
+			w.x.viol([]string{"C15", "C16", "C10"}, "req.error-code", "reserved name: not 400 NAME_INVALID", fmt.Sprintf("%s %s answered %d %v", rq.Method, rq.Path, r.Code, w.errCodes(r)))
 		}
 	}
 	// the same for the source of a mount: a from= outside the grammar never reaches the store (the request goes on as an
